@@ -614,7 +614,17 @@ func (w *c08W) interrogateBody(st *c08Session, img *simfs.FS, id string, im c08I
 	// history that do not touch (the source skipped ahead and a new writer started beyond a gap); whatever it serves
 	// after the reopen must not be a run that ends in front of the newest one.
 	if hasRange && im.k == w.fs.JournalLen() && im.torn == 0 && im.flip == "" {
-		if n := len(fed); n >= 2 && fed[n-1].hi > fed[n-1].lo && rr < fed[n-1].lo {
+		// (the newer run must BE there: a file of it in the image. A run whose only bytes were still on their way to the
+		// writer when the run ended has no file, the image then holds nothing newer and serving the older data is right)
+		newerOnDisk := false
+		if n := len(fed); n >= 2 {
+			for _, m := range marks {
+				if m >= fed[n-1].lo {
+					newerOnDisk = true
+				}
+			}
+		}
+		if n := len(fed); n >= 2 && fed[n-1].hi > fed[n-1].lo && rr < fed[n-1].lo && newerOnDisk {
 			simrt.Probe("c08_gap_in_final_image")
 			return w.violate("C08.stale_run_served", "an older run of segments is served although newer data lie beyond a gap", im,
 				"id %s: GetOffsetRange = [%d,%d] but the cache holds the newer run [%d,%d) of this history beyond a gap (runs handed to it: %s); directory: %v", tailID(id), l, rr, fed[n-1].lo, fed[n-1].hi, fed, img.Tree(c08Base))
